@@ -234,6 +234,10 @@ def run(chk):
 
     chk.rule('C14-G', 'names that address no child are refused (ChildNotFound / ChildNotValid) under the same conditions as in the reviewed tree')
     from . import guardrules
+    chk.rule('C14-S', 'the maps that address the children of an element (by name, by long name, order, cardinalities) are replaced '
+                      'together whenever a parsed structure is copied onto it')
+    from . import codelemmas as _cl2
+    _cl2.structure_maps_together(chk, c, 'C14-S')
     chk.rule('C14-I', 'a text is accepted as a positional index only in its canonical spelling: the predicate that tries int() on it also '
                       'pins the spelling down (children are looked up by the canonical <prefix>_<i>)')
     from . import codelemmas as _cl
